@@ -82,6 +82,32 @@ def order_scenario():
     ]}
 
 
+def rerun_scenario():
+    """C17: Run is stopped, returns, and is started again on the same client object (an application that restarts its
+    connection loop): the next-message id is the client's delivery cursor, not per-run state - the second run declares
+    last delivered + 1 and nothing is handled twice."""
+    return {"name": "ids_across_second_run", "prop": "C17", "cfg": {"auto_ready": 1}, "steps": [
+        (["run"], [0]),
+        (["srv_accept", 0, 3000], [0, 1, 1]),
+        (["srv_collect", 1, 3000, 0], [0, 1, READY, 1]),
+        (["srv_send", "tx", 1, 1], [0]),
+        (["srv_send", "tx", 2, 2], [0]),
+        (["srv_send", "update", 3, 2], [0]),
+        (["handled", 400], [0, 1, 1, 1, 2, 2, 3]),
+        (["next"], [0, 4]),
+        (["stop"], [0, 1]),
+        (["run"], [0]),
+        (["srv_accept", 0, 3000], [0, 1, 1]),
+        (["srv_collect", 1, 3000, 0], [0, 1, READY, 4]),
+        (["srv_send", "tx", 3, 3], [0]),
+        (["srv_send", "tx", 4, 4], [0]),
+        (["srv_send", "update", 5, 4], [0]),
+        (["handled", 400], [0, 1, 4, 2, 5]),
+        (["next"], [0, 6]),
+        (["stop"], [0, 1]),
+    ]}
+
+
 def concurrent_scenario(order):
     """C16: six concurrent calls of mixed kinds, responses permuted / unsolicited / rejected."""
     calls = [(4, 1), (4, 2), (5, 10), (6, 101), (1, 3), (7, 0)]
@@ -132,7 +158,7 @@ def scenarios(prop, tier, rng):
         res += [gate_scenario(2), gate_scenario(3), early_data_scenario()]
         res += [auth_scenario(v) for v in ((1, 3, 4) if tier == "quick" else (1, 2, 3, 4, 5, 6, 7))]
     if prop == "C17":
-        res += [order_scenario()]
+        res += [order_scenario(), rerun_scenario()]
     if prop == "C16":
         perms = [[0, 1, 2, 3, 4, 5], [5, 4, 3, 2, 1, 0], [3, 0, 5, 2, 4, 1]]
         if tier != "quick":
